@@ -39,3 +39,14 @@ Theorem C10_insert_then_delete_is_identity :
       /\ (forall chk p, rsearch chk r2 p = rsearch chk (run b ops) p).
 Proof. exact reach_roundtrip. Qed.
 Print Assumptions C10_insert_then_delete_is_identity.
+
+(* ... and the printed tree (the tree itself, up to the flags and dirty marks that Display does not print) *)
+From WF Require Import Model.Display Proofs.UniqueP Proofs.UniqueDisplayP.
+Theorem C10_insert_then_delete_restores_the_printed_tree :
+  forall b (ops : list op) t d r1,
+    rinsert (run b ops) t d = (r1, ROk tt) ->
+    exists r2, rdelete r1 t = (r2, ROk d)
+      /\ display (r_root r2) = display (r_root (run b ops))
+      /\ erase (r_root r2) = erase (r_root (run b ops)).
+Proof. exact reach_roundtrip_display. Qed.
+Print Assumptions C10_insert_then_delete_restores_the_printed_tree.
